@@ -15,7 +15,8 @@ CHECKS['C01'] = dict(
          'baulking, class-change matrices, transition matrices) preserves the conservation invariant WFx for every configuration, every state satisfying it and '
          'every oracle of draws (= all seeds, distributions and tie-breaks), any number of events; WFx_means spells the invariant out in the words of the property. '
          'K2: on every in-scope observed run the model, started from the IMPLEMENTATION\'s own previous snapshot with the draws it consumed, reproduces the next '
-         'snapshot and records exactly, and the initial snapshot satisfies WFx (wfx_b_sound).',
+         'snapshot and records exactly, and the initial snapshot satisfies WFx (wfx_b_sound). T2 exit_is_permanent / event_step_grows: the exit list only ever grows and a customer at the exit is in no node after any number of events. '
+         'The extracted invariant test wfx_b is also evaluated on every real snapshot K2 visits.',
     note=COMMON_NOTE,
     technique='Coq theorem about an executable acceptor + conformance of real traces (runtime refinement check)')
 
@@ -30,7 +31,11 @@ _add('C02',
      'T1 C02_sound (Coq, induction over traces of any length): on every accepted trace the clock is monotone, each event runs at the '
      'minimum of all dates scheduled in the previous snapshot (recomputed from raw attributes, not from the cached next_event_date), '
      'no scheduled date lies in the past, and every record satisfies the ordering/arithmetic of its type. K1: every observed run of the '
-     'real engine is accepted frame by frame.',
+     'real engine is accepted frame by frame. T2 event_step_clk / run_many_clk / run_many_monotone (Coq, Inv/Clock.v): the ENGINE MODEL (stage 1) keeps the clock invariant Clk '
+     '(no arrival, node event or end of service scheduled in the past; the arrival node\'s date is the minimum of its table; the event executed next is scheduled exactly at the '
+     'current time) and the clock never decreases, for every configuration, every state satisfying Clk and every oracle whose service and inter-arrival times are >= 0, any number of events; '
+     'Clk_means restates it in the words of the property. K2: the model reproduces the real engine step by step on in-scope runs, and the extracted test clk_b (clk_b_sound) holds on '
+     'the initial and every later real snapshot visited.',
      'Open findings F-02a/F-02b/F-02c (pre-emption or pre-emptive shift change of a blocked customer; stale reneging date) are '
      'recognised by frame-level triggers and reported as KNOWN-FINDING.')
 _add('C04',
@@ -59,12 +64,15 @@ _add('C07',
 _add('C08',
      'T1 C08_sound (Coq): every accepted service start chose a customer of the first non-empty waiting priority class, the earliest arrival '
      '(FIFO) / latest (LIFO) / any (SIRO) of that class, evaluated on the waiting line captured at the moment of the choice. K1: every '
-     'start of every observed run.',
+     'start of every observed run. T2, function level (Coq, Inv/Order.v, engine model stage 1): chosen_is_prescribed - what choose_next_customer returns waits, is in the first priority class '
+     'in which anybody waits and is the first / last waiting one in queue order under FIFO / LIFO (any under SIRO); none_chosen_none_waiting; bsip_release_starts_chosen / '
+     'bsip_accept_starts_chosen - the service-start block is entered only with that choice and changes no other customer; accept_appends - queue order is arrival order. '
+     '(Not an invariant over runs: the statement about every start of a run is carried by T1 + K1 and K2.)',
      'Open finding F-08a (class change while waiting appends at the tail) is reported as KNOWN-FINDING.')
 _add('C12',
      'Sched.v: closed form of the Schedule generator after k shift changes (sched_after), strict monotonicity of shift dates for '
      'well-formed timetables (wf_dates_increasing); T1 C12_sound: every schedule/slot event of an accepted run is the one the cyclic '
-     'timetable prescribes (date, server count, slot size; zero-server shifts start nothing; interrupted customers restart first). '
+     'timetable prescribes (date, server count, slot size; zero-server shifts start nothing; interrupted customers restart first; a node executes an end of service only strictly before its own due shift change / slot). '
      'K1: observed runs + object-level differential of Schedule/Slotted against the extracted model.',
      technique='Coq theorems about a hand-written model of the schedule generator + acceptor; differential and conformance against the real objects')
 _add('C18',
